@@ -138,10 +138,17 @@ impl GasBinder {
                     ("add_gas", svec![&env, sender.into_val(&env), SStr::from_str(&env, "msg-1").into_val(&env), spender.into_val(&env), token.into_val(&env)])
                 };
                 let sub: SVec<Val> = svec![&env, spender.into_val(&env), gs.into_val(&env), amt.into_val(&env)];
-                let auths: Vec<(Address, Inv)> = auth_names
+                let mut auths: Vec<(Address, Inv)> = auth_names
                     .iter()
                     .map(|n| (self.cx.addr(n), Inv::new(&gs, func, args.clone()).with(Inv::new(&taddr, "transfer", sub.clone()))))
                     .collect();
+                // `scoped`: principals whose entry is rooted at the bare token transfer to the service - it does
+                // not authorise this gas payment
+                if let Some(sc) = act.get("scoped").and_then(|x| x.as_array()) {
+                    for n in sc {
+                        auths.push((self.cx.addr(n.as_str().unwrap()), Inv::new(&taddr, "transfer", sub.clone())));
+                    }
+                }
                 self.cx.call_auth(&auths, &gs, func, args)
             }
             "CollectFees" | "Refund" => {
